@@ -326,6 +326,10 @@ def L3(tier, scheds=('fwd', 'bwd'), balances=(True, False), cals=None, ests=None
                             for bal in balances:
                                 yield Scenario(sched, bal, S, mk_tasks((None,) * k, attrs), list(pat),
                                                cals={'A': cal}, layer='L7' if decimal else 'L3')
+                                if sched == 'fwd' and S0 == MON + H9 and not decimal and cal in ('none', 'half'):
+                                    # the clock stands exactly at the (non-midnight) project start: still "not later than the start"
+                                    yield Scenario(sched, bal, S, mk_tasks((None,) * k, attrs), list(pat),
+                                                   cals={'A': cal}, clock=S, layer='L3')
 
 
 def L3y(tier, scheds=('fwd', 'bwd'), balances=(True, False)):
